@@ -345,6 +345,8 @@ def main(rep, tier):
     check.guard(rep, "R7.5", run_handoff, f)
     rep.configs.append({"features": "async,http", "profile": "debug", "bodies": len(f.bodies)})
     check.guard(rep, "R7", run, f)
+    import check as _c
+    _c.witnesses(rep, "C07", f)
     return rep.finish(
         "Ordering and provenance rules over the interprocedural event graph of Token::run (with Request::close, writeable, "
         "record_boundary inlined): handler-call counting per constructed Request, status provenance, epilogue preconditions and "
